@@ -118,6 +118,10 @@ func TestBounded_C13(t *testing.T) {
 			if !noop && !tr.IsDirty() {
 				bViolation(t, "C13", "clean-but-changed", "%s\nafter %v (a real change) the tree reports IsDirty()=false", cfg, o)
 			}
+			// a snapshot (clone) of the modified tree is no cleaner than the tree itself
+			if c, err := tr.Clone(bctx); err == nil && !noop && !c.IsDirty() {
+				bViolation(t, "C13", "clone-clean-but-changed", "%s\nafter %v (a real change) a Clone of the tree reports IsDirty()=false", cfg, o)
+			}
 			if !tr.IsDirty() {
 				if msg := bCompare(tr, model, univ); msg != "" {
 					bViolation(t, "C13", "clean-but-changed", "%s\nafter %v the tree reports clean but differs from the loaded version: %s", cfg, o, msg)
